@@ -116,7 +116,12 @@ class NullDomain(Domain):
                 v = o.slots[const_key]
                 # a missing key raises KeyError: on the continuing path the value is present
                 if "A" in v.tag:
-                    return V((v.tag - A) or VV, v.ref)
+                    nv = V((v.tag - A) or VV, v.ref)
+                    if o.kind == "dict" and len(v.tag) > 1:
+                        mo_ = it.mobj(st, base)
+                        if mo_ is not None and const_key in mo_.slots:
+                            mo_.slots[const_key] = nv  # ... and the key stays present afterwards
+                    return nv
                 return v
             if o.elem is not None:
                 return V((o.elem.tag - A) or VV, o.elem.ref)
@@ -212,6 +217,16 @@ class NullDomain(Domain):
             return nv
         return None
 
+    def on_key_load(self, it, base, key, v, st):
+        # reading a key that is absent raises KeyError: on the continuing path the key is present
+        if "A" in v.tag and len(v.tag) > 1:
+            o = it.mobj(st, base)
+            if o is not None and key in o.slots:
+                nv = V(v.tag - A, v.ref)
+                o.slots[key] = nv
+                return nv
+        return None
+
     # refinement on `x is None`, `x is not None`, truthiness of names
     def refine(self, it, test, truth, st):
         if isinstance(test, ast.UnaryOp) and isinstance(test.op, ast.Not):
@@ -228,16 +243,20 @@ class NullDomain(Domain):
                 self._narrow(it, l, N if is_none else None, st, remove=None if is_none else N)
                 return
             # "key" in d
-            if isinstance(op, (ast.In, ast.NotIn)) and isinstance(l, ast.Constant):
+            if isinstance(op, (ast.In, ast.NotIn)):
+                # the key may be a literal or a name bound to a constant (a loop over a constant table)
+                key = l.value if isinstance(l, ast.Constant) else it.const_key(l, st)
+                if key is _NOKEY:
+                    return
                 present = isinstance(op, ast.In) == truth
                 base = it.eval(r, st) if isinstance(r, (ast.Name,)) else None
                 o = it.mobj(st, base) if base is not None else None
-                if o is not None and l.value in o.slots:
-                    v = o.slots[l.value]
+                if o is not None and key in o.slots:
+                    v = o.slots[key]
                     if present:
-                        o.slots[l.value] = V((v.tag - A) or VV, v.ref)
+                        o.slots[key] = V((v.tag - A) or VV, v.ref)
                     elif "A" in v.tag:
-                        o.slots[l.value] = V(A)
+                        o.slots[key] = V(A)
                 return
         if isinstance(test, ast.Name):
             # truthy => not None (falsy says nothing)
